@@ -11,15 +11,17 @@ from zope.interface import (Interface, Declaration, implementedBy, classImplemen
                             classImplementsOnly, directlyProvides, providedBy,
                             directlyProvidedBy, alsoProvides, noLongerProvides)
 from zope.interface.interface import InterfaceClass
+from .common import wmod, newworld
 
 BASES = {'I0': (), 'I1': ('I0',), 'I2': ('I0',), 'I3': ('I1', 'I2'), 'J': ()}
 NAMES = list(BASES)
 
 
 def mkifaces():
+    newworld()
     I = {}
     for n, bs in BASES.items():
-        I[n] = InterfaceClass(n, tuple(I[b] for b in bs) or (Interface,), {'__module__': 'w'})
+        I[n] = InterfaceClass(n, tuple(I[b] for b in bs) or (Interface,), {'__module__': wmod()})
     return I
 
 
